@@ -23,6 +23,11 @@ var HostileFragments = []string{
 	"key=(null)", "key=", "key=\x01", "key=6B31016B32", "key=\"a=b=c\"", "key=\"=\"", "auid=4294967295", "auid=-1", "ses=-1", "old-auid=-1",
 	"proctitle=", "proctitle=0", "proctitle=00", "proctitle=G0", "proctitle=\"x", "cmd=", "data=0", "name=(null)", "name=\"", "cwd=2F", "cwd=\"\"", "exe=0", "acct=FF", "acct=\"",
 	"type=SYSCALL msg=audit(", "msg=audit(", "audit(", "):", "(", ")", ":", ".",
+	// deeply nested msg= values (a value that is itself key=value text is parsed again): empty, '?', free-text and
+	// key=value leaves, bare and quoted - the cost must stay linear in the depth
+	strings.Repeat("msg=", 30), strings.Repeat("msg=", 44), strings.Repeat("msg=", 64) + "?", strings.Repeat("msg=", 200) + "free text",
+	strings.Repeat("msg='", 40), strings.Repeat("msg='", 56) + "op=x" + strings.Repeat("'", 56), strings.Repeat(`msg="`, 48), strings.Repeat("msg=msg='", 30),
+	strings.Repeat("msg=", 50) + "a=b", strings.Repeat("msg= ", 40), strings.Repeat("'msg=", 40),
 }
 
 // Saddrs returns saddr= fields of every length 0..60 for the interesting families.
